@@ -40,6 +40,8 @@ _op = st.one_of(
     st.tuples(st.just("unset"), _ci, _ci, _name, _mk).map(list),
     st.tuples(st.just("use"), _ci, _ci, st.lists(st.tuples(_name, _mk).map(list), min_size=1, max_size=4), st.sampled_from(["plain", "paren", "adjacent", "where", "param"])).map(list),
     st.tuples(st.just("use"), _ci, _ci, st.lists(st.tuples(_name, _mk).map(list), min_size=1, max_size=4), st.sampled_from(["plain", "paren", "adjacent", "where", "param"])).map(list),
+    st.tuples(st.just("repeat"), _ci, _ci).map(list),
+    st.tuples(st.just("repeat"), _ci, _ci).map(list),
     st.tuples(st.just("literal"), _ci, _ci, st.sampled_from(["dollar-quoted", "plain-no-dollar", "dollar-in-literal", "dollar-digit-in-literal", "double-dollar-in-literal"]), st.text(alphabet="abc 1", max_size=4)).map(list),
 )
 
@@ -47,7 +49,9 @@ _op = st.one_of(
 @st.composite
 def _case(draw, tier):
     n = 20 if tier == "quick" else 40
-    return {"ops": draw(st.lists(_op, min_size=4, max_size=n))}
+    # a small per-case pool of names (biased to prefix/case families) so that SET / use / UNSET / re-use hit the same name
+    pool = draw(st.lists(st.integers(0, len(NAMES) - 1), min_size=2, max_size=4, unique=True))
+    return {"pool": pool, "ops": draw(st.lists(_op, min_size=4, max_size=n))}
 
 
 def _sql_value(v: dict) -> tuple[str, object]:
@@ -83,6 +87,10 @@ def _value_class(v: dict) -> str | None:
 
 
 def run_vars(case, ctx: Ctx) -> None:
+    pool = case.get("pool") or list(range(len(NAMES)))
+    if not all(isinstance(i, int) and 0 <= i < len(NAMES) for i in pool):
+        raise InvalidCase()
+    NAMES_ = [NAMES[i] for i in pool]
     fs = new_instance()
     try:
         conns = [fs.connect("db1", "s1"), fs.connect("db1", "s1")]
@@ -91,6 +99,7 @@ def run_vars(case, ctx: Ctx) -> None:
         curs[0][0].execute("insert into t values (1, 'a'), (2, 'b'), (3, 'c')")
         model: list[dict] = [{}, {}]
         poisoned = [False, False]
+        last_use: list[list | None] = [None, None]
 
         for op in case["ops"]:
             kind, ci, ki = op[0], op[1], op[2]
@@ -109,7 +118,7 @@ def run_vars(case, ctx: Ctx) -> None:
                 ctx.cls("second-cursor")
 
             if kind == "set":
-                name = _mask(NAMES[op[3]], op[4])
+                name = _mask(NAMES_[op[3] % len(NAMES_)], op[4])
                 sqlv, pyv = _sql_value(op[5])
                 vc = _value_class(op[5])
                 if vc:
@@ -123,7 +132,7 @@ def run_vars(case, ctx: Ctx) -> None:
                     ctx.fail("C15|set|wrong-status", repr(o.rows))
                 m[name.upper()] = (op[5], pyv)
             elif kind == "unset":
-                name = _mask(NAMES[op[3]], op[4])
+                name = _mask(NAMES_[op[3] % len(NAMES_)], op[4])
                 if name.upper() not in m:
                     continue  # UNSET only of defined names (input domain)
                 o = run(cur, f"UNSET {name}")
@@ -132,9 +141,17 @@ def run_vars(case, ctx: Ctx) -> None:
                     return
                 del m[name.upper()]
                 ctx.cls("unset")
-            elif kind == "use":
+            elif kind in ("use", "repeat"):
+                if kind == "repeat":
+                    # the very same statement text again, after whatever SET/UNSET happened in between
+                    if last_use[ci] is None:
+                        continue
+                    op = last_use[ci]
+                    ctx.cls("same-statement-text-repeated")
+                else:
+                    last_use[ci] = op
                 refs, form = op[3], op[4]
-                names = [_mask(NAMES[i], mk) for i, mk in refs]
+                names = [_mask(NAMES_[i % len(NAMES_)], mk) for i, mk in refs]
                 if form == "where":
                     names = names[:1]
                 undefined = [n for n in names if n.upper() not in m]
